@@ -153,6 +153,23 @@ def impl(case):
             if [row[: len(col[0])] for row in rec] != [row[: len(rec[0])] for row in col] if rec and col else rec != col:
                 obs["iter_differs"] = f"record {j} of the streaming iterator (records collected in a list) holds {rec}; the bulk read holds {col} for that variant"
                 break
+    if fmt != ".vcf.gz+idx" and not case.get("stale_index") and not case["drop_phase_plane"] and case["variants"] and C.plumb(case, "reuse", 3) == 0:
+        # the reader object used for a second file (as many variants, other IDs and positions, the columns in reverse order): what it
+        # holds afterwards is the second file, as a reader that never saw the first one reads it
+        path2 = _dir / ("h.chr1" + ext)
+        for f in _dir.glob("h.*"):
+            f.unlink()
+        nv = len(case["variants"])
+        second = dict(case, variants=[{**v, "id": v["id"] + "x", "pos": v["pos"] + 1000} for v in case["variants"]], data=[row[::-1] for row in case["data"]])
+        if all(len(case["variants"][j]["alleles"]) == len(case["variants"][nv - 1 - j]["alleles"]) for j in range(nv)):
+            gtio.make_obj("GenotypesPLINK" if ext == ".pgen" else "GenotypesVCF", path2, second, chunk_size=case["wchunk"]).write()
+            r.fname = path2
+            r.read()
+            reused = C.canon(gtio.snapshot(r))
+            fresh_r = D.GenotypesPLINK(path2, log=SD.silent_log(), chunk_size=case["rchunk"]) if ext == ".pgen" else getattr(D, case["reader"])(path2, log=SD.silent_log())
+            fresh_r.read()
+            if reused != C.canon(gtio.snapshot(fresh_r)):
+                obs["reused_reader_differs"] = f"a reader that had read {path.name} and was then pointed at {path2.name} holds {str(reused)[:300]}; a new reader of {path2.name} holds {str(C.canon(gtio.snapshot(fresh_r)))[:300]}"
     if ext != ".pgen" and not case.get("stale_index") and C.plumb(case, "stream", 12) == 0:
         # the written VCF / BCF piped into another process that reads /dev/stdin (a stream has no index and cannot be read
         # twice): the matrix that comes back is the same.  A process of its own with a time limit: htslib blocks inside C when
@@ -231,6 +248,8 @@ def oracle(case, obs):
         return f"write/read raised {obs}"
     if obs.get("iter_differs"):
         return obs["iter_differs"]
+    if obs.get("reused_reader_differs"):
+        return obs["reused_reader_differs"]
     if obs.get("stream_differs"):
         return f"the written {case['fmt']} file piped into a process that reads /dev/stdin does not come back as the same file read by name does: {obs['stream_differs']}"
     pg = case["fmt"].startswith(".pgen")
